@@ -125,12 +125,17 @@ Definition olds (c : c04_case) : list (option content) :=
 
 Definition dest_of (c : c04_case) (f : files) : option content := option_map fst (assoc (c_dest (k_cfg c)) f).
 
+(* the body completes: old or complete new; the body raises: old only *)
+Definition dest_good (c : c04_case) (after : option content) : bool :=
+  if k_raises c then dest_ok_aborted (olds c) after
+  else dest_ok (olds c) (new_content (k_body c)) after.
+
 Definition holds (c : c04_case) : bool :=
   let new := new_content (k_body c) in
   let r := k_run c in
-  forallb (fun kf => dest_ok (olds c) new (dest_of c (snd kf))) (k_crashes c) &&
-  forallb (fun f => dest_ok (olds c) new (dest_of c f)) (k_asyncs c) &&
-  dest_ok (olds c) new (dest_of c (r_files r)) &&
+  forallb (fun kf => dest_good c (dest_of c (snd kf))) (k_crashes c) &&
+  forallb (fun f => dest_good c (dest_of c f)) (k_asyncs c) &&
+  dest_good c (dest_of c (r_files r)) &&
   (match r_outcome r with
    | OOk => normal_exit_ok new (dest_of c (r_files r))
                            (match assoc (c_part (k_cfg c)) (r_files r) with Some _ => true | None => false end)
@@ -150,5 +155,5 @@ Definition c04_explain (c : c04_case) :=
   (oobs_of o, rev (w_trace w), show_files c (w_fs w),
    map (fun kf => let '(o', w') := run_model c (Some (fst kf)) in
                   (fst kf, show_files c (w_fs w'),
-                   dest_ok (olds c) (new_content (k_body c)) (dest_of c (snd kf)))) (k_crashes c),
+                   dest_good c (dest_of c (snd kf)))) (k_crashes c),
    (agree_run c, map (agree_crash c) (k_crashes c), map (agree_async c) (k_asyncs c))).
